@@ -24,7 +24,7 @@ HARNESS_FILES = HARNESS_BASE + ["lab_*.go", "src_*.go", "c13_*.go"]
 PROPOSED = os.path.join(WORK, "proposed_findings_C13.json")
 
 # law -> (flag of the `?info` reply, hypothesis of the _partial theorem it belongs to)
-NEVER_EXCLUDED = ("reflexive-same-value", "one-leaf-mutant-unequal", "no-crash")
+NEVER_EXCLUDED = ("reflexive-same-value", "one-leaf-mutant-unequal")
 
 
 def parse_info(s):
@@ -123,6 +123,8 @@ class C13:
             return [(i, i)]
         if law == "transitivity":
             return [(i, j), (j, k), (i, k)]
+        if law == "no-crash":
+            return [(0, 0)]
         return [(i, j)]
 
     def excluded_by(self, row, infos_for):
@@ -142,6 +144,9 @@ class C13:
             inf, raw = infos_for[(x, y)]
             infos["%d,%d" % (x, y)] = raw
             if inf is None:
+                # positions the model declares as crashing: `!=` on interface values (alias of any)
+                if law == "no-crash" and raw == "unsup reference to an alias of any" and "uncomparable" in row.get("text", ""):
+                    return ["anyAliasRef"], "model-agrees", infos
                 return [], "model:" + raw, infos
             if real is not None:
                 if inf["eq"][0] != real["M"][x][y] or inf["eq"][1] != real["M"][y][x]:
@@ -197,9 +202,9 @@ class C13:
         for n, (row, verdict) in enumerate(self.fails):
             law = row.get("law", "?")
             ids, agree, infos = self.excluded_by(row, per_row.get(n, {}))
-            text = "law=%s excludedBy=%s model=%s format=%s object=%s kind=%s defs=%s docs=%s" % (
+            text = "law=%s excludedBy=%s model=%s format=%s object=%s kind=%s text=%s defs=%s docs=%s" % (
                 law, ",".join(ids) or "none", agree, row.get("format"), row["object"], row.get("kind"),
-                row.get("defs", ""), " ".join(row.get("docs", [])))
+                row.get("text", "")[:200], row.get("defs", ""), " ".join(row.get("docs", [])))
             kf = c.match_known(text) if (ids and agree == "model-agrees") else None
             if kf:
                 continue
@@ -408,7 +413,7 @@ def main():
     c.cov["model_unsupported"] = x.n_unsup
     st = (x.dist or {}).get("stats", {})
     c.oblige("lab: generated cases compiled and ran (cases:run > 0)", st.get("cases:run", 0) > 0, st)
-    c.oblige("pinned witnesses ran", st.get("kind:pinned", 0) >= 6, st)
+    c.oblige("pinned witnesses ran", st.get("kind:pinned", 0) >= 6 and st.get("cases:run", 0) >= 7, st)
     c.finish(cmd, rule,
              "schemas: generated Src terms rendered to JSON Schema / OpenAPI / CUE + 6 pinned witness schemas; per struct object "
              "groups of 2-3 documents (same, reordered, one-leaf mutants, presence, key-swapped maps, nil-vs-empty, "
